@@ -550,14 +550,27 @@ def builder_init_problems(ctx):
 
     def t_from():
         f = ctx.rspirv.fn(BLD, "new_from_module", "Builder")
-        mod = ("struct", "Module", {"header": ("some", _hdr())})
+        # a whole module: a header whose bound (100) is larger than every id in use (3, 40 .. 43), as when ids were reserved but not used
+        from . import evalsum
+        mod = evalsum.fresh_builder(ctx, "none")[2]["module"]
+        hd = _hdr()
+        hd[2]["bound"] = 100
+        mod[2]["header"] = ("some", hd)
+        mod[2]["types_global_values"] = ("list", [evalsum._ti("TypeVoid", [], 3), evalsum._ti("TypeInt", [("enum", "Operand::LiteralBit32", [32]), ("enum", "Operand::LiteralBit32", [0])], 40)])
+        fn0 = mod[2]["functions"][1][0]
+        fn0[2]["def"] = ("some", evalsum._ti("Function", [], 41, 3))
+        for bl_ in fn0[2]["blocks"][1]:
+            bl_[2]["label"] = ("some", evalsum._ti("Label", [], 42))
+            bl_[2]["instructions"] = ("list", [evalsum._ti("Undef", [], 43, 40), evalsum._ti("Return", [])])
         r, _ = _run(ctx, "Builder::new_from_module", f, {f["sig"]["params"][0][0]: mod})
         if not (isinstance(r, tuple) and r[0] == "struct" and r[1] == "Builder"):
             return "yields %s" % short(r)[:120]
         fl = r[2]
         pb = []
-        if fl.get("next_id") != ("sym", "F_BOUND"):
-            pb.append("continuation starts ids at %s, not at the header bound" % short(fl.get("next_id")))
+        if fl.get("next_id") != 100:
+            pb.append("continuation starts ids at %s, not at the header bound 100 (ids 3, 40 .. 43 are in use)" % short(fl.get("next_id")))
+        if fl.get("selected_function") != NONE or fl.get("selected_block") != NONE:
+            pb.append("a function or block is selected after adopting the module")
         if fl.get("module") is not mod:
             pb.append("the module is not the one given")
         return "; ".join(pb) or None
